@@ -3,6 +3,7 @@ import Model.Wallet
 import Props.GenTie.Params
 import Proofs.Map
 import Proofs.Book
+import Proofs.Book2
 import Proofs.FS
 
 /-!
@@ -116,11 +117,44 @@ theorem self_connection_dropped (b : Book) (k : PeerKey) (p : ConnPeer) (myPort 
   · rw [hd, Book.myAddresses_peerDisconnected]
     exact List.mem_cons_self
 
+/-- once `(host, port)` of `k` is one of the node's own addresses, no new attempt to `k` is ever
+logged, whatever happens afterwards: the entries of the attempt log (a history variable, newest
+first) that concern `k` are, after any sequence of events, exactly those that were there before
+(in particular the attempt through which the address was learnt stays the last one), and the
+address stays recorded as the node's own. Nothing is assumed about the log of `b`: it may, and for
+every reachable book with an own address does, contain earlier attempts to `k`. -/
 theorem self_address_not_retried (b : Book) (k : PeerKey) (hmine : (k.host, k.port) ∈ b.myAddresses)
-    (evs : List BookEvent) (hno : ∀ e ∈ b.attempts, e.1 ≠ k) :
-    (∀ e ∈ (Book.run P b evs).attempts, e.1 ≠ k) ∧ (k.host, k.port) ∈ (Book.run P b evs).myAddresses := by
-  have h : Book.SelfInv k (Book.run P b evs) := Book.SelfInv.run P evs ⟨hmine, hno⟩
+    (evs : List BookEvent) :
+    (Book.run P b evs).attempts.filter (fun e => decide (e.1 = k)) = b.attempts.filter (fun e => decide (e.1 = k)) ∧
+    (k.host, k.port) ∈ (Book.run P b evs).myAddresses := by
+  have h : Book.SelfInv' k (b.attempts.filter (fun e => decide (e.1 = k))) (Book.run P b evs) :=
+    Book.SelfInv'.run P evs ⟨hmine, rfl⟩
   exact ⟨h.2, h.1⟩
+
+/-- the greeting itself logs nothing -/
+theorem self_greeting_logs_nothing (b : Book) (k : PeerKey) (p : ConnPeer) (myPort : Nat)
+    (hk : k.outgoing = true) (hg : b.connected.get? k = some p) :
+    (Book.apply P b (.hello k true myPort)).attempts = b.attempts := by
+  simp only [Book.apply, hg, hk]
+  exact Book.attempts_disconnect _ _ _
+
+/-- `self_connection_dropped` composed with `self_address_not_retried`: after the greeting carrying
+the node's own nonce on a registered outgoing connection `k`, for every later sequence of events
+the logged attempts to `k` are exactly those logged before the greeting — in particular their
+number stays what it was: the node never dials `k` again -/
+theorem self_connection_never_retried (b : Book) (k : PeerKey) (p : ConnPeer) (myPort : Nat)
+    (hk : k.outgoing = true) (hg : b.connected.get? k = some p) (hr : p.registered = true)
+    (evs : List BookEvent) :
+    let b' := Book.apply P b (.hello k true myPort)
+    (Book.run P b' evs).attempts.filter (fun e => decide (e.1 = k)) = b.attempts.filter (fun e => decide (e.1 = k)) ∧
+    ((Book.run P b' evs).attempts.filter (fun e => decide (e.1 = k))).length =
+      (b.attempts.filter (fun e => decide (e.1 = k))).length := by
+  intro b'
+  have hmine : (k.host, k.port) ∈ b'.myAddresses := (self_connection_dropped P b k p myPort hk hg hr).2
+  have h := (self_address_not_retried P b' k hmine evs).1
+  have ha : b'.attempts = b.attempts := self_greeting_logs_nothing P b k p myPort hk hg
+  rw [ha] at h
+  exact ⟨h, by rw [h]⟩
 
 /-- an announced peer never overwrites a known one -/
 theorem announced_never_overwrite (b : Book) (host : String) (port : Nat)
@@ -199,6 +233,23 @@ example : (Book.run exParams exBook
 /-- a connection to oneself is not retried -/
 example : (Book.run exParams exBook
       [.step 100, .hello exKey true 2412, .step 5000, .step 10000]).attempts = [(exKey, 100, 0)] := by decide
+
+/-- `self_address_not_retried` applied to a reachable book: the one after the dial at 100 and the
+greeting with the own nonce; its log does contain the attempt to `exKey` (so the hypothesis is
+satisfied by a book whose log is not free of `exKey`), and the conclusion says the later steps
+add none -/
+example : ((Book.run exParams (Book.run exParams exBook [.step 100, .hello exKey true 2412])
+      [.step 5000, .close exKey, .step 10000]).attempts.filter (fun e => decide (e.1 = exKey)))
+    = [(exKey, 100, 0)] :=
+  (self_address_not_retried exParams (Book.run exParams exBook [.step 100, .hello exKey true 2412]) exKey
+    (by decide) [.step 5000, .close exKey, .step 10000]).1.trans (by decide)
+
+/-- `self_connection_never_retried` applied: the book after the dial at 100 satisfies the hypotheses
+of `self_connection_dropped`, and one attempt to `exKey` is logged then and ever after -/
+example : ((Book.run exParams (Book.apply exParams (Book.run exParams exBook [.step 100]) (.hello exKey true 2412))
+      [.step 5000, .step 10000]).attempts.filter (fun e => decide (e.1 = exKey))).length = 1 :=
+  (self_connection_never_retried exParams (Book.run exParams exBook [.step 100]) exKey
+    ⟨some 100, 0, false, true, 0⟩ 2412 rfl (by decide) rfl [.step 5000, .step 10000]).2.trans (by decide)
 
 /-- the hypotheses of `backoff` are satisfiable with a non-trivial split of the log -/
 example : (120 : Int) - 100 ≥ (min (exParams.timeToSecondAttempt * 2 ^ 1) exParams.maxTimeBetweenAttempts : Nat) :=
